@@ -81,6 +81,8 @@ def run(an: Analysis, rep):
     rep.run(r03w, an, rep)
     rep.run(r03f, an, rep)
     rep.run(r03y, an, rep)
+    rep.run(r03t, an, rep)
+    rep.run(r03e, an, rep)
     from . import c05 as _c05k
     from .common import SharedRules as _SR3
     rep.run(_c05k.r05k, an, _SR3(rep, "R03.K2", "constants are handed to CodeType with value and type unchanged (shared with C05's R05.K2): 'every operand resolves to exactly the given ... constant'"), "R05.K2")
@@ -1052,3 +1054,264 @@ def r03y(an, rep, rule="R03.Y"):
         rep.add(rule, f"{g.qual}::assembly of witness instructions [{vname(V)}]", not bad, loc(g.module, loop),
                 f"{len(W)} witness lists (1-4 code units, recorded width, extra table entries, a block without a line): units, per-unit lines and the offsets of extra entries as expected" if not bad else
                 bad[0] + (f" (+{len(bad) - 1} more)" if len(bad) > 1 else "") + " - the line table written for such data differs from the one it was decoded from")
+
+
+# ----------------------------------------------------------------------------- R03.T
+def r03t(an, rep, rule="R03.T"):
+    """The encoder's table (the class with __setitem__) folded over witness call sequences.  Expected, from what a table of a code object is and
+    from what the decoder reports: an entry given without position takes the position equal to the number of positions already taken (the mirror
+    of the decoder's first-use rank - R09.7), the same entry given again resolves to its position, a pinned entry takes its pin, two different
+    entries at one position are refused, and the compaction returns the entries in position order (or refuses gaps)."""
+    from sa.feval import BlockOutcome, FevalError, Obj, ObjEval
+    rep.rule(rule, "the encoder's table folded over witness call sequences: positions as first-use ranks, pins honoured, collisions refused, compaction in position order", 2)
+    ci = table_class(an)
+    methods = {m.name: m.node for m in ci.methods.values() if isinstance(m.node, ast.FunctionDef)}
+    adders = [m for m in ci.methods.values() if len(m.params) == 3 and m.name != "__setitem__" and any(isinstance(n, ast.Return) for n in ast.walk(m.node))]
+    comps = [m for m in ci.methods.values() if len(m.params) == 1 and not m.name.startswith("__") and any(isinstance(n, ast.Return) and n.value is not None for n in ast.walk(m.node))]
+    if len(adders) != 1 or len(comps) != 1:
+        raise AnalysisError(f"{ci.qual}: the add (entry, position or None) -> position method / the compaction method were not recognised")
+    add, comp = adders[0], comps[0]
+
+    def resolve(name):
+        r = an.prog.resolve_global(ci.module, name, add)
+        return r[1].node if r and r[0] == "func" else None
+    keyf = lambda v: (type(v).__name__, v[0] if isinstance(v, tuple) else v)  # noqa: E731 - the witness key: ("tuple", first member) makes (1, "x") and (1, "y") one key
+    RAISE = "<raises>"
+    # (name, key function or None for the default, [(entry, pin) ...], expected positions, expected table or RAISE)
+    T1, T1b = (1, "x"), (1, "y")
+    W = [
+        ("entries in order of first use", None, [("a", None), ("b", None), ("a", None), ("c", None), ("b", None)], [0, 1, 0, 2, 1], ("a", "b", "c")),
+        ("entries met out of table order, as the decoder reports them", None, [("a", None), ("z", 2), ("b", 1), ("z", 2)], [0, 2, 1, 2], ("a", "b", "z")),
+        ("the rank of a new entry is a position a pin has taken: refused, not overwritten", None, [("a", None), ("z", 2), ("b", None)], [0, 2, RAISE], None),
+        ("pins out of order", None, [("b", 1), ("a", 0), ("c", None)], [1, 0, 2], ("a", "b", "c")),
+        ("two entries with one key pinned apart, then a new entry", keyf, [(T1, 0), (T1b, 1), ("u", None)], [0, 1, 2], (T1, T1b, "u")),
+        ("1 and True are different entries", lambda v: (type(v).__name__, v), [(1, None), (True, None), (1, None)], [0, 1, 0], (1, True)),
+        ("a pin that leaves a gap", None, [("a", None), ("q", 5)], [0, 5], RAISE),
+        ("two different entries pinned at one position", None, [("a", 0), ("b", 0)], [0, RAISE], None),
+        ("a new entry after a pinned first position", None, [("p", 0), ("a", None), ("b", None)], [0, 1, 2], ("p", "a", "b")),
+    ]
+    bad = []
+    n_calls = 0
+    for name, kf, seq, want_pos, want_tab in W:
+        ev = ObjEval(resolve, extra={}, methods=methods)
+        ev.module_assigns = ci.module.assigns
+        obj = Obj({"__cls__": ci.name})
+        try:
+            for fl in ci.fields:
+                if fl.default_factory is not None:
+                    obj[fl.name] = ev.ev(ast.Call(func=fl.default_factory, args=[], keywords=[]), {})
+                elif fl.default is not None:
+                    obj[fl.name] = ev.ev(fl.default, {})
+                else:
+                    raise AnalysisError(f"{ci.qual}: field {fl.name} has no default: how the table is constructed is not recognised")
+            if kf is not None:
+                kfields = [fl.name for fl in ci.fields if "hash" in fl.name or "key" in fl.name]
+                if len(kfields) != 1:
+                    raise AnalysisError(f"{ci.qual}: the field holding the key function was not recognised")
+                obj[kfields[0]] = kf
+            if "__post_init__" in methods:
+                ev.call_method(methods["__post_init__"], obj)
+            stop = False
+            for k, ((entry, pin), want) in enumerate(zip(seq, want_pos)):
+                n_calls += 1
+                try:
+                    got = ev.call_method(add.node, obj, entry, pin)
+                except BlockOutcome:
+                    got = RAISE
+                if got != want or (got is not RAISE and isinstance(got, bool)):
+                    bad.append(f"{name}: call #{k + 1} `{add.name}({entry!r}, {pin!r})` gives {got!r}, expected {want!r}")
+                    stop = True
+                    break
+                if got is RAISE:
+                    stop = True
+                    break
+            if stop or want_tab is None:
+                continue
+            n_calls += 1
+            try:
+                tab = ev.call_method(comp.node, obj)
+            except BlockOutcome:
+                tab = RAISE
+            if tab != want_tab or (tab is not RAISE and [type(x) for x in tab] != [type(x) for x in want_tab]):
+                bad.append(f"{name}: after {[(e, p) for e, p in seq]} `{comp.name}()` gives {tab!r}, expected {want_tab!r}")
+        except AnalysisError:
+            raise
+        except Exception as ex:  # noqa: BLE001 - a gap of the evaluator, never a verdict
+            raise AnalysisError(f"{ci.qual}: table methods not evaluable on the witness sequence '{name}' ({type(ex).__name__}: {ex})")
+    rep.add(rule, f"{add.qual}::positions on witness call sequences", not bad, loc(add.module, add.node),
+            f"{len(W)} call sequences ({n_calls} calls): positions, refusals and compacted tables as expected" if not bad else
+            bad[0] + (f" (+{len(bad) - 1} more)" if len(bad) > 1 else "") + " - the operand written for the instruction and the table handed to CodeType disagree with what the decoder reported "
+            "(first-use rank = number of positions taken; entries with one key are kept apart by their pins)")
+
+
+# ----------------------------------------------------------------------------- R03.E
+def package_evaluator(an, module, V, max_iter=4096):
+    """An ObjEval over the whole package: module-level functions of any package module by name (ambiguous names are not resolved), every data
+    class constructible, `dis` / `opcode` / `sys` / `ctypes` as the reference tables of interpreter V."""
+    from sa.feval import ObjEval
+    from .c11 import reference as _ref
+    fns, amb = {}, set()
+    for mod in an.prog.modules.values():
+        if mod.name.startswith("code_data") and not mod.is_test:
+            for name, f in mod.functions.items():
+                if f.cls is None and isinstance(f.node, ast.FunctionDef):
+                    if name in fns and fns[name] is not f.node:
+                        amb.add(name)
+                    fns[name] = f.node
+    R = _ref(V)
+    om = dict(R["opmap"])
+    opname = [f"<{i}>" for i in range(256)]
+    for k, v in om.items():
+        opname[v] = k
+    dis_ = {"opmap": om, "opname": opname, "EXTENDED_ARG": R["EXTENDED_ARG"], "HAVE_ARGUMENT": R["HAVE_ARGUMENT"],
+            **{k: list(R[k]) for k in ("hasjabs", "hasjrel", "hasname", "haslocal", "hasfree", "hasconst", "hascompare")}}
+    import collections as _c
+    import math as _m
+    ev = ObjEval(lambda name: None if name in amb else fns.get(name),
+                 extra={"dis": dis_, "opcode": dis_, "EXTENDED_ARG": R["EXTENDED_ARG"], "HAVE_ARGUMENT": R["HAVE_ARGUMENT"], "opmap": om, "opname": opname,
+                        "sys": {"version_info": tuple(V) + (0, "final", 0)}, "ctypes": {"sizeof": lambda x: {"c_int": 4}[x], "c_int": lambda *a: "c_int"},
+                        "Counter": _c.Counter, "isnan": _m.isnan, "copysign": _m.copysign, "NotImplementedError": NotImplementedError, "ValueError": ValueError,
+                        "AssertionError": AssertionError, "OrderedDict": dict,
+                        "_ParameterKind": {"POSITIONAL_ONLY": 0, "POSITIONAL_OR_KEYWORD": 1, "VAR_POSITIONAL": 2, "KEYWORD_ONLY": 3, "VAR_KEYWORD": 4}})
+    ev.module_assigns = {}
+    for mod in an.prog.modules.values():
+        if mod.name.startswith("code_data") and not mod.is_test:
+            for k, v in mod.assigns.items():
+                ev.module_assigns.setdefault(k, v)
+    ev.module_assigns.update(module.assigns)
+    for mod in an.prog.modules.values():
+        if mod.name.startswith("code_data") and not mod.is_test:
+            for ci in mod.classes.values():
+                if ci.is_dataclass:
+                    ev.register_class(ci)
+    ev.MAX_ITER = max_iter
+    ev.MAX_STEPS = 3_000_000
+    return ev, R
+
+
+def read_units(code: bytes, R):
+    """dis._unpack_opargs: (first offset, opcode offset, opcode, operand, number of code units) per instruction."""
+    out = []
+    ext = 0
+    first = None
+    for i in range(0, len(code), 2):
+        op, b = code[i], code[i + 1]
+        if first is None:
+            first = i
+        if op == R["EXTENDED_ARG"]:
+            ext = (ext | b) << 8
+            continue
+        out.append((first, i, op, ext | b, (i - first) // 2 + 1))
+        ext, first = 0, None
+    return out
+
+
+def r03e(an, rep, rule="R03.E"):
+    """The function that lays the instructions out (operands, widths, jump relaxation, code units) folded over witness block lists; the bytes it
+    returns are read back the way CPython's disassembler reads them: same opcodes in order, every jump lands on the first code unit of the first
+    instruction of its target block, every other operand is the expected table position / number, widths never below what was recorded."""
+    from sa.feval import BlockOutcome, Obj
+    rep.rule(rule, "the encoder's layout folded over witness block lists; the bytes read back as CPython's disassembler reads them", 4)
+    g = None
+    for f in an.closure("to_code"):
+        if isinstance(f.node, ast.FunctionDef) and f.cls is None and any(isinstance(n, ast.While) for n in ast.walk(f.node)) \
+                and any(isinstance(n, ast.Attribute) and n.attr == "EXTENDED_ARG" for n in ast.walk(f.node)):
+            g = f
+    if g is None or len(g.params) != 4:
+        raise AnalysisError("the encoder's layout function (blocks, additional args, free variables, kind of code) was not found")
+    J = lambda t, rel=True: ("J", t, rel)  # noqa: E731
+    N, K, X, C, F = (lambda n, o=None: ("N", n, o)), (lambda v, o=None: ("K", v, o)), (lambda i: ("X", i)), (lambda n: ("C", n)), (lambda n: ("F", n))  # noqa: E731
+    fill = [("LOAD_CONST", K(7)), ("POP_TOP", None)]
+    # (name, blocks: [(opname, arg spec, recorded width)], freevars)
+    W = [
+        ("two equal relative jumps to one block from different places",
+         [[("JUMP_FORWARD", J(2)), ("NOP", None), ("NOP", None), ("JUMP_FORWARD", J(2))], [("LOAD_CONST", K(1)), ("POP_TOP", None)], [("LOAD_CONST", K(None)), ("RETURN_VALUE", None)]], ()),
+        ("a jump to a block whose first instruction has a prefix",
+         [[("LOAD_NAME", N("a")), ("POP_JUMP_IF_FALSE", J(1, False)), ("NOP", None)], [("BUILD_TUPLE", X(300)), ("JUMP_ABSOLUTE", J(0, False))]], ()),
+        ("a relative jump over more than 255 bytes, an absolute jump back behind it",
+         [[("LOAD_NAME", N("a")), ("JUMP_FORWARD", J(2))], fill * 70, [("LOAD_NAME", N("b")), ("POP_JUMP_IF_TRUE", J(1, False)), ("JUMP_ABSOLUTE", J(2, False)), ("RETURN_VALUE", None)]], ()),
+        ("a jump recorded with three code units, and one whose operand crosses 255 when the other grows",
+         [[("JUMP_FORWARD", J(1), 3)], fill * 63 + [("JUMP_ABSOLUTE", J(2, False))], [("RETURN_VALUE", None)]], ()),
+        ("cell and free variables",
+         [[("LOAD_CLOSURE", C("c")), ("LOAD_DEREF", F("f1")), ("LOAD_DEREF", F("f0")), ("LOAD_DEREF", C("c")), ("RETURN_VALUE", None)]], ("f0", "f1")),
+        ("names and constants met twice, 1 / True / 1.0 kept apart",
+         [[("LOAD_NAME", N("x")), ("LOAD_CONST", K(1)), ("LOAD_CONST", K(True)), ("LOAD_NAME", N("y")), ("LOAD_CONST", K(1.0)), ("LOAD_NAME", N("x")), ("LOAD_CONST", K(1)), ("RETURN_VALUE", None)]], ()),
+    ]
+    for V in VERSIONS:
+        bad = []
+        for wname, wb, freevars in W:
+            ev, R = package_evaluator(an, g.module, V)
+            mk = ev.lib
+
+            def arg_obj(spec):
+                if spec is None:
+                    return mk["NoArg"]()
+                if spec[0] == "J":
+                    return mk["Jump"](spec[1], spec[2])
+                if spec[0] == "N":
+                    return mk["Name"](spec[1], spec[2])
+                if spec[0] == "K":
+                    return mk["Constant"](spec[1], spec[2])
+                if spec[0] == "C":
+                    return mk["Cellvar"](spec[1])
+                if spec[0] == "F":
+                    return mk["Freevar"](spec[1])
+                return spec[1]
+            if any(op not in R["opmap"] for b in wb for op, *_ in b):
+                continue
+            try:
+                blocks = tuple(tuple(mk["Instruction"](name=ins[0], arg=arg_obj(ins[1]), _n_args_override=(ins[2] if len(ins) > 2 else None), line_number=1) for ins in b) for b in wb)
+                res = ev.call_method(g.node, blocks, (), tuple(freevars), None)
+            except BlockOutcome as o:
+                bad.append(f"{wname}: the layout stops at `{norm_src(o.node)[:60]}`")
+                continue
+            except AnalysisError:
+                raise
+            except Exception as ex:  # noqa: BLE001 - a gap of the evaluator, never a verdict
+                raise AnalysisError(f"{g.qual}: not evaluable on the witness blocks '{wname}' ({type(ex).__name__}: {ex})")
+            code = next((x for x in res if isinstance(x, (bytes, bytearray))), None) if isinstance(res, tuple) else None
+            tables = [x for x in res if isinstance(x, tuple)] if isinstance(res, tuple) else []
+            if code is None or len(tables) != 4:
+                raise AnalysisError(f"{g.qual}: the result on the witness blocks is not (code, mapping, names, varnames, cellvars, constants)")
+            names, varnames, cellvars, consts = tables
+            units = read_units(bytes(code), R)
+            flat = [ins for b in wb for ins in b]
+            if [u[2] for u in units] != [R["opmap"][ins[0]] for ins in flat]:
+                bad.append(f"{wname}: the code units read back as opcodes {[u[2] for u in units][:8]}..., expected {[R['opmap'][ins[0]] for ins in flat][:8]}...")
+                continue
+            starts, k = [], 0
+            for b in wb:
+                starts.append(units[k][0])
+                k += len(b)
+            scale = R["jump_scale"]
+            why = None
+            for (first, opoff, op, operand, n), ins in zip(units, flat):
+                spec = ins[1]
+                rec = ins[2] if len(ins) > 2 else None
+                if rec and n < rec:
+                    why = f"{ins[0]} at {first} was recorded with {rec} code units and is written with {n}"
+                elif spec is None:
+                    continue
+                elif spec[0] == "J":
+                    tgt = (opoff + 2 + operand * scale) if spec[2] else operand * scale
+                    if op in R["hasjabs"] and spec[2] or op in R["hasjrel"] and not spec[2]:
+                        continue
+                    if tgt != starts[spec[1]]:
+                        why = f"{ins[0]} at {first} lands on {tgt}; block {spec[1]} begins at {starts[spec[1]]}"
+                elif spec[0] == "N" and (operand >= len(names) or names[operand] != spec[1]):
+                    why = f"{ins[0]} {spec[1]!r} has operand {operand}, co_names is {names}"
+                elif spec[0] == "K" and (operand >= len(consts) or consts[operand] != spec[1] or type(consts[operand]) is not type(spec[1])):
+                    why = f"{ins[0]} {spec[1]!r} has operand {operand}, co_consts is {consts}"
+                elif spec[0] == "C" and (operand >= len(cellvars) or cellvars[operand] != spec[1]):
+                    why = f"{ins[0]} cell {spec[1]!r} has operand {operand}, co_cellvars is {cellvars}"
+                elif spec[0] == "F" and operand != len(cellvars) + list(freevars).index(spec[1]):
+                    why = f"{ins[0]} free variable {spec[1]!r} has operand {operand}; CPython counts {len(cellvars)} cell(s) first, then {freevars}"
+                elif spec[0] == "X" and operand != spec[1]:
+                    why = f"{ins[0]} {spec[1]} has operand {operand}"
+                if why:
+                    break
+            if why:
+                bad.append(f"{wname}: {why}")
+        rep.add(rule, f"{g.qual}::layout of witness blocks [{vname(V)}]", not bad, loc(g.module, g.node),
+                f"{len(W)} witness block lists (equal relative jumps, prefixed block starts, jumps that grow, recorded widths, cell / free variables, repeated entries): read back as given" if not bad else
+                bad[0] + (f" (+{len(bad) - 1} more)" if len(bad) > 1 else "") + " - CPython's disassembler reads something else than the data says")
